@@ -288,7 +288,205 @@ pub fn check_clients(c: &mut Cluster) {
             _ => {}
         }
     }
+    // ---- C12: a lease read is answered from local state only while no other node has won an
+    //      election for a later term (the lease window must have ended before that is possible)
+    for cl in &c.clients {
+        let Some((key, pol)) = &cl.read else { continue };
+        if *pol != super::cluster::RPolicy::Lease {
+            continue;
+        }
+        if let ClientOutcome::ReadOk(val) = &cl.outcome {
+            if cl.resolved_at_event != Some(c.events_applied) {
+                continue;
+            }
+            let term = c.last_views.get(&cl.node).map(|v| v.term).unwrap_or(cl.term_at_invoke).min(cl.term_at_invoke.max(1));
+            let later: Vec<(u32, u64)> = c
+                .oracle
+                .leader_seen_at
+                .iter()
+                .filter(|((m, t), at)| *m != cl.node && *t > term && **at <= c.events_applied)
+                .map(|((m, t), _)| (*m, *t))
+                .collect();
+            if !later.is_empty() {
+                let cause = sticky_vote_cause(c, cl.node, term).unwrap_or_default();
+                viol.push((
+                    "C12".into(),
+                    format!("lease{}", cl.id),
+                    format!(
+                        "node {} (term {}) answered a lease read of {:?} = {:?} from local state although {:?} had already become leader of a later term{}",
+                        cl.node, term, key, val, later, cause
+                    ),
+                ));
+            }
+            let is_leader_now = c.last_views.get(&cl.node).map(|v| v.role == RoleKind::Leader).unwrap_or(false);
+            if !is_leader_now && cl.role_at_invoke != RoleKind::Leader {
+                viol.push((
+                    "C12".into(),
+                    format!("leasenl{}", cl.id),
+                    format!("node {} answered a lease read from local state although it is not a leader", cl.node),
+                ));
+            }
+        }
+    }
     for (p, k, w) in viol {
         c.oracle.violate(&p, k, w);
+    }
+    check_linearizable_history(c);
+}
+
+/// Root-cause tag shared by C10/C11/C12: a later-term leader exists that was elected with the
+/// vote of a node other than itself and `node` - i.e. a follower granted its vote although it
+/// was still following `node` (d-engine has no "ignore vote requests while a leader is alive"
+/// rule, which lease-based reads rely on).
+fn sticky_vote_cause(c: &Cluster, node: u32, term: u64) -> Option<String> {
+    for ((m, t), (quorum, _asked)) in c.oracle.election_votes.iter() {
+        if *m != node && *t > term && c.oracle.leader_seen_at.contains_key(&(*m, *t)) {
+            let followers: Vec<u32> = quorum.iter().copied().filter(|v| *v != *m && *v != node).collect();
+            if !followers.is_empty() {
+                return Some(format!(
+                    " (node {m} won term {t} with the vote of {followers:?}, which granted it while node {node}'s lease on them was still running: votes are granted without regard to a live leader)"
+                ));
+            }
+        }
+    }
+    None
+}
+
+#[derive(Clone, Debug)]
+struct HOp {
+    write: Option<Option<String>>, // Some(Some(v)) put v, Some(None) delete
+    read: Option<Option<String>>,  // observed value
+    invoke: usize,
+    response: Option<usize>,
+    /// writes whose outcome is unknown may or may not have taken effect
+    optional: bool,
+}
+
+/// Wing-Gong style search: is there a total order of the operations, consistent with real
+/// time (a responded op precedes every op invoked after its response), in which every read
+/// returns the latest preceding write (register semantics, initially absent)?
+fn linearizable(ops: &[HOp]) -> bool {
+    fn rec(ops: &[HOp], done: &mut Vec<bool>, value: &Option<String>, placed: usize) -> bool {
+        if placed == ops.len() {
+            return true;
+        }
+        // earliest response among the not-yet-placed, non-optional-skipped ops bounds who may go first
+        let min_resp = ops
+            .iter()
+            .enumerate()
+            .filter(|(i, _)| !done[*i])
+            .filter_map(|(_, o)| o.response)
+            .min()
+            .unwrap_or(usize::MAX);
+        for i in 0..ops.len() {
+            if done[i] {
+                continue;
+            }
+            let o = &ops[i];
+            // o may be linearized next only if it was invoked before every pending response
+            if o.invoke > min_resp {
+                continue;
+            }
+            if let Some(w) = &o.write {
+                done[i] = true;
+                if rec(ops, done, w, placed + 1) {
+                    return true;
+                }
+                // an optional write may also never take effect (only if it has no response)
+                if o.optional && o.response.is_none() && rec(ops, done, value, placed + 1) {
+                    return true;
+                }
+                done[i] = false;
+            } else if let Some(r) = &o.read {
+                if r == value {
+                    done[i] = true;
+                    if rec(ops, done, value, placed + 1) {
+                        return true;
+                    }
+                    done[i] = false;
+                }
+            }
+        }
+        false
+    }
+    let mut done = vec![false; ops.len()];
+    rec(ops, &mut done, &None, 0)
+}
+
+/// C10 / C11: the client-visible history of key "a" (writes with unique values, reads served
+/// under the linearizable policy) must be linearizable.
+pub fn check_linearizable_history(c: &mut Cluster) {
+    use super::cluster::ClientOutcome;
+    use super::cluster::Op;
+    use super::cluster::RPolicy;
+    // only when something resolved in this event
+    if !c.clients.iter().any(|cl| cl.resolved_at_event == Some(c.events_applied) && cl.read.is_some()) {
+        return;
+    }
+    let key = "a";
+    let mut ops: Vec<HOp> = vec![];
+    for cl in &c.clients {
+        if let Some(op) = &cl.write {
+            let (k, w) = match op {
+                Op::Put(k, v) | Op::PutTtl(k, v, _) => (k, Some(v.clone())),
+                Op::Del(k) => (k, None),
+                Op::Cas(..) => continue,
+            };
+            if k != key {
+                continue;
+            }
+            match &cl.outcome {
+                ClientOutcome::WriteOk(_) => ops.push(HOp { write: Some(w), read: None, invoke: cl.invoked_at_event, response: cl.resolved_at_event, optional: false }),
+                ClientOutcome::Err(e)
+                    if e.starts_with("FailedPrecondition:Not leader")
+                        || e == "NotLeader"
+                        || e.starts_with("InvalidArgument")
+                        || e.starts_with("ResourceExhausted") => {}
+                // pending, timed out, channel closed, other errors: may or may not take effect
+                _ => ops.push(HOp { write: Some(w), read: None, invoke: cl.invoked_at_event, response: None, optional: true }),
+            }
+        } else if let Some((k, pol)) = &cl.read {
+            if k != key {
+                continue;
+            }
+            let effective_linearizable = match pol {
+                RPolicy::Linearizable => true,
+                RPolicy::Default => c.opts.default_policy == RPolicy::Linearizable,
+                _ => false,
+            };
+            if !effective_linearizable {
+                continue;
+            }
+            if let ClientOutcome::ReadOk(v) = &cl.outcome {
+                ops.push(HOp { write: None, read: Some(v.clone()), invoke: cl.invoked_at_event, response: cl.resolved_at_event, optional: false });
+            }
+        }
+    }
+    if ops.iter().all(|o| o.read.is_none()) || ops.len() > 10 {
+        return;
+    }
+    if !linearizable(&ops) {
+        let desc: Vec<String> = ops
+            .iter()
+            .map(|o| match (&o.write, &o.read) {
+                (Some(w), _) => format!("write({:?})[{}..{}]{}", w, o.invoke, o.response.map(|r| r.to_string()).unwrap_or("?".into()), if o.optional { "?" } else { "" }),
+                (_, Some(r)) => format!("read->{:?}[{}..{}]", r, o.invoke, o.response.map(|r| r.to_string()).unwrap_or("?".into())),
+                _ => String::new(),
+            })
+            .collect();
+        let key = format!("lin{}", c.clients.iter().filter(|x| x.read.is_some()).count());
+        // was one of the reads served by a leader that had already been superseded?
+        let mut cause = String::new();
+        for cl in &c.clients {
+            if cl.read.is_some() && matches!(cl.outcome, ClientOutcome::ReadOk(_)) {
+                if let Some(x) = sticky_vote_cause(c, cl.node, cl.term_at_invoke) {
+                    cause = format!("; a read was served by node {} under its lease{}", cl.node, x);
+                    break;
+                }
+            }
+        }
+        let text = format!("the client history of key 'a' is not linearizable: {}{}", desc.join(", "), cause);
+        c.oracle.violate("C11", key.clone(), text.clone());
+        c.oracle.violate("C10", key, text);
     }
 }
